@@ -82,7 +82,10 @@ fn gen_num(t: &mut Tape, float: bool) -> Num {
 }
 fn gen_pred(t: &mut Tape, ty: &Ty, n: usize) -> Pred {
     let k = t.below(n);
-    match (t.weighted(&[4, 2, 2, 2, 3, 1, 1]), ty) {
+    match (t.weighted(&[4, 2, 2, 2, 3, 1, 1, 2, 2, 3]), ty) {
+        (9, _) => Pred::NeViaGet(k),
+        (7, _) => Pred::EqViaGet(k),
+        (8, _) => Pred::NeViaFilter(k),
         (0, _) => Pred::Eq(k),
         (1, _) => Pred::Ne(k),
         (2, Ty::Int) => Pred::Lt(k),
@@ -660,6 +663,9 @@ fn remap_pred(p: &Pred, j: usize) -> Option<Pred> {
         Pred::Lt(k) => Pred::Lt(f(*k)?),
         Pred::Gt(k) => Pred::Gt(f(*k)?),
         Pred::FstEq(k) => Pred::FstEq(f(*k)?),
+        Pred::EqViaGet(k) => Pred::EqViaGet(f(*k)?),
+        Pred::NeViaFilter(k) => Pred::NeViaFilter(f(*k)?),
+        Pred::NeViaGet(k) => Pred::NeViaGet(f(*k)?),
     })
 }
 fn remap_mapfn(m: &MapFn, j: usize) -> Option<MapFn> {
